@@ -93,8 +93,12 @@ fn child_type(d: &ArrayData, i: usize, f: &Field) -> VResult {
 }
 
 /// nulls inside the referenced region `[start, start+len)` of a non-nullable child
-fn child_no_nulls(c: &ArrayData, start: usize, len: usize, f: &Field, parent_valid: Option<&dyn Fn(usize) -> bool>) -> VResult {
+fn child_no_nulls(c: &ArrayData, start: usize, len: usize, f: &Field, parent_valid: Option<&dyn Fn(usize) -> bool>, parent_has_nulls: bool) -> VResult {
     if f.is_nullable() {
+        return Ok(());
+    }
+    // a null further up (grandparent, ...) also excuses a null here
+    if ANC_NULLS.with(|c| c.get()) > parent_has_nulls as u32 {
         return Ok(());
     }
     if let Some(n) = c.nulls() {
@@ -116,8 +120,20 @@ fn child_no_nulls(c: &ArrayData, start: usize, len: usize, f: &Field, parent_val
     Ok(())
 }
 
+thread_local! {
+    /// number of enclosing nodes (including the one being validated) that carry nulls: a
+    /// non-nullable struct / fixed-size-list child may legally hold a null wherever ANY
+    /// ancestor is null, and only the direct parent's validity is at hand row-wise, so the
+    /// non-nullable-child rule is applied only when no farther ancestor has nulls (lenient)
+    static ANC_NULLS: std::cell::Cell<u32> = const { std::cell::Cell::new(0) };
+}
+
 pub fn spec_validate(d: &ArrayData) -> VResult {
-    spec_validate_inner(d).map_err(|e| format!("[{}] {e}", d.data_type()))
+    let has = d.nulls().map(|n| n.null_count() > 0).unwrap_or(false) as u32;
+    ANC_NULLS.with(|c| c.set(c.get() + has));
+    let r = spec_validate_inner(d).map_err(|e| format!("[{}] {e}", d.data_type()));
+    ANC_NULLS.with(|c| c.set(c.get() - has));
+    r
 }
 
 fn spec_validate_inner(d: &ArrayData) -> VResult {
@@ -260,7 +276,7 @@ fn spec_validate_inner(d: &ArrayData) -> VResult {
                 ));
             }
             let pv = |i: usize| valid_at(d, i / n.max(1));
-            child_no_nulls(c, off * n, len * n, f, Some(&pv))?;
+            child_no_nulls(c, off * n, len * n, f, Some(&pv), d.null_count() > 0)?;
             spec_validate(c)
         }
         Struct(fs) => {
@@ -276,7 +292,7 @@ fn spec_validate_inner(d: &ArrayData) -> VResult {
                     ));
                 }
                 let pv = |j: usize| valid_at(d, j);
-                child_no_nulls(c, off, len, f, Some(&pv))?;
+                child_no_nulls(c, off, len, f, Some(&pv), d.null_count() > 0)?;
                 spec_validate(c)?;
             }
             Ok(())
@@ -557,8 +573,9 @@ fn list_like<O: ArrowNativeType + Into<i64>>(
                 c.len()
             ));
         }
-        // non-nullable child: no nulls inside extents of valid lists
-        if !f.is_nullable() {
+        // non-nullable child: no nulls inside extents of valid lists (unless a farther
+        // ancestor has nulls, which may excuse them)
+        if !f.is_nullable() && ANC_NULLS.with(|c| c.get()) <= (d.null_count() > 0) as u32 {
             if let Some(n) = c.nulls() {
                 for i in 0..len {
                     if !valid_at(d, i) {
@@ -605,7 +622,7 @@ fn list_view<O: ArrowNativeType + Into<i64>>(
                 c.len()
             ));
         }
-        if !f.is_nullable() && valid_at(d, i) {
+        if !f.is_nullable() && valid_at(d, i) && ANC_NULLS.with(|c| c.get()) <= (d.null_count() > 0) as u32 {
             if let Some(n) = c.nulls() {
                 for j in o..e {
                     if n.is_null(j as usize) {
